@@ -966,6 +966,17 @@ func Fixed() []*Spec {
 		Toks:  []Tok{named("NUM", 470), named("ID", 0), named("STR", 472), litV('+'), litV('-'), {Name: "KW"}, {Name: "KX", Num: 475}, lit(';')},
 		Rules: rules("S: S E ';' | E ';'", "E: E '+' T | E '-' T | T", "T: NUM | ID | STR | KW | KX"),
 		NTTag: allVal("S", "E", "T")})
+	// thirteen rules, one of them with twelve right-hand-side symbols: item (rule, dot) pairs with
+	// two-digit components on both sides
+	{
+		var toks []Tok
+		for _, n := range []string{"A", "B", "C", "D", "E", "F", "G", "H", "I", "J", "X", "Y", "K1", "K2", "K3", "K4", "K5", "K6", "K7", "K8", "K9"} {
+			toks = append(toks, Tok{Name: n})
+		}
+		add(&Spec{Name: "long13", Tags: []string{"lalr1"}, MinN: 4,
+			Toks:  toks,
+			Rules: rules("s: A n B C D E F G H I J m", "m: Y", "k: K1 | K2 | K3 | K4 | K5 | K6 | K7 | K8 | K9", "n: X k")})
+	}
 	// names that differ only in case; automatic token numbers
 	add(&Spec{Name: "case_names", Tags: []string{"lalr1"},
 		Toks:  []Tok{named("NUM", 0), named("List", 0), lit(',')},
